@@ -8,7 +8,7 @@ import sys
 import threading
 import time
 
-from vf import core, gen, inject, oracle, servers, poolmon
+from vf import core, gen, inject, oracle, servers, poolmon, steady
 from vf import dispatchmon as dm
 from vf.probes import Spec
 
@@ -217,15 +217,17 @@ def clients_workload(ctx, rng, inj, cell, family):
         t.start()
     # bounded progress: the clients are the only source of work; nothing answered for 8 s while some are still
     # waiting means the server stopped serving
-    last, last_change = -1, time.monotonic()
+    still = steady.Stillness(8.0, 150)
+    t_begin = time.monotonic()
     while any(t.is_alive() for t in ths):
         time.sleep(0.02)
-        n_done = len(results)
-        now = time.monotonic()
-        if n_done != last:
-            last, last_change = n_done, now
-        elif now - last_change > 8.0:
+        if still.look(len(results)) is not None:
             break
+        if time.monotonic() - t_begin > 300:
+            ctx.unsure("clients workload: watchdog without a confirmed frozen state")
+            inj.configure("none")
+            sut.srv.cleanup()
+            return 0
     inj.configure("none")
     stuck = [t.name for t in ths if t.is_alive()]
     case = {"cell": [cell[0], cell[1]], "family": family, "clients": nclients, "ops": nops}
@@ -322,17 +324,18 @@ def idle_gap_workload(ctx, rng, inj, family, plan):
     for t in ths:
         t.daemon = True
         t.start()
-    last, last_change = -1, time.monotonic()
     frozen = False
+    still = steady.Stillness(4.0, 150, sut.poolname)
+    t_begin = time.monotonic()
     while any(t.is_alive() for t in ths):
         time.sleep(0.01)
-        n = len(results)
-        now = time.monotonic()
-        if n != last:
-            last, last_change = n, now
-        elif now - last_change > 4.0:
+        if still.look(len(results)) is not None:
             frozen = True
             break
+        if time.monotonic() - t_begin > 120:
+            ctx.unsure("idle-gap workload: watchdog without a confirmed frozen state")
+            inj.configure("none")
+            return
     inj.configure("none")
     case = {"cell": [cell[0], cell[1]], "family": family, "scenario": "idle-gap", "plan": plan}
     ctx.case(("idle-gap", family, plan["qualname"], plan["line"], plan["role"], plan["k"]), nontrivial=True)
@@ -372,17 +375,16 @@ def call_with_watch(ctx, sut, name, fn, release=None):
         time.sleep(0.01)
         release()
     t0 = time.monotonic()
-    last = sut.fx.log.mark()
-    last_change = t0
+    still = steady.Stillness(3.0, 100, "PooledJSONRPCServer")
     while t.is_alive():
         t.join(0.01)
-        n = sut.fx.log.mark()
-        now = time.monotonic()
-        if n != last:
-            last, last_change = n, now
-        elif now - last_change > 3.0:
-            stacks = poolmon.thread_stacks("PooledJSONRPCServer")
+        verdict = still.look(sut.fx.log.mark())
+        if verdict is not None:
+            stacks = verdict["stacks"]
             return "frozen", {"stacks": stacks.get("vf-controller-" + name), "all": stacks}
+        if time.monotonic() - t0 > 120:
+            ctx.unsure("lifecycle call %s: watchdog without a confirmed frozen state" % name)
+            return "unsure", {}
     return box.get("out", "returned"), {"exc": box.get("exc")}
 
 
@@ -394,6 +396,8 @@ def lifecycle_close(ctx, sut, case, ops, label, release=None):
         fn = server.shutdown if op == "shutdown" else server.server_close
         out, detail = call_with_watch(ctx, sut, op, fn, release if op == ops[0] else None)
         ctx.count("lifecycle:%s:%s" % (op, out.split(":")[0]))
+        if out == "unsure":
+            return False
         if out == "frozen":
             ctx.violate("%s-did-not-return:%s:%s" % (op, sut.cell[0], "never-served" if not served else label),
                         dict(case, lifecycle=ops, label=label), detail)
@@ -419,9 +423,14 @@ def lifecycle_close(ctx, sut, case, ops, label, release=None):
             ctx.violate("listening-socket-open-after-server_close:" + sut.cell[0],
                         dict(case, lifecycle=ops, label=label), {"fileno": fileno, "connect_succeeds": connectable})
         if sut.cell[0] == "pooled":
+            # workers end on their own once the pool is stopped: waited for until the (responsive, see vf/steady.py)
+            # machine shows the same worker stacks twice
+            still = steady.Stillness(5.0, 150, sut.poolname)
             t0 = time.monotonic()
-            while sut.pool_workers() and time.monotonic() - t0 < 5.0:
+            while sut.pool_workers() and time.monotonic() - t0 < 120:
                 time.sleep(0.01)
+                if still.look(len(sut.pool_workers())) is not None:
+                    break
             alive = [t.name for t in sut.pool_workers()]
             ctx.count("judged:pool-workers-terminated")
             if alive:
@@ -484,14 +493,14 @@ def sibling_lifecycle(ctx, rng, cell, family, lc):
     th.daemon = True
     th.start()
     t0 = time.monotonic()
-    last, last_change = 0, t0
+    still = steady.Stillness(4.0, 150, a.poolname)
     while th.is_alive():
         time.sleep(0.01)
-        now = time.monotonic()
-        if len(answers) != last:
-            last, last_change = len(answers), now
-        elif now - last_change > 4.0:
+        if still.look(len(answers)) is not None:
             break
+        if time.monotonic() - t0 > 120:
+            ctx.unsure("sibling lifecycle: watchdog without a confirmed frozen state")
+            return
     ctx.count("judged:token-replies", len(answers))
     if answers != [True, True, True]:
         ctx.violate("clients-not-served:pooled:after-a-sibling-server-was-closed", case,
